@@ -52,7 +52,10 @@ def cases(draw):
                 hspeed=draw(st.sampled_from([0.0, 0.4, 0.9])), steps=draw(st.integers(1, 4)),
                 # between two steps some particles die and are removed while as many new ones are released
                 # (the number of particles stays the same, the survivors move up in the arrays)
-                swap=draw(st.sampled_from([0, 0, 2, 5])))
+                swap=draw(st.sampled_from([0, 0, 2, 5])),
+                # directed flavour: a crowd resting on a flat bottom, diffusion and advection both on, nearly the whole
+                # displacement budget given to the random part (an escape then needs only a 3.5-sigma excess)
+                nearbottom=draw(st.sampled_from([False, False, False, False, False, True])))
 
 
 @st.composite
@@ -94,6 +97,9 @@ def oracle(case) -> core.CaseResult:
 
     e2e.quiet()
     res = core.CaseResult()
+    if case.get("nearbottom"):
+        case = dict(case, mode="both", share=0.05, frac=0.98, ratio=1.0, n=60, hspeed=0.0)
+        res.cls("crowd_on_a_flat_bottom")
     case = dict(case, vertdiff=case["mode"] in ("diff", "both"), vadv=case["mode"] in ("adv", "both"))
     rng = np.random.default_rng(case["seed"])
     jm, im = case["jm"], case["im"]
@@ -142,6 +148,9 @@ def oracle(case) -> core.CaseResult:
     Z[0::5] = 0.0
     Z[1::5] = h0[1::5]
     Z[2::5] = h0[2::5] * (1 - 1e-12)
+    if case.get("nearbottom"):
+        Z = h0.copy()
+        Z[::2] *= 1 - 1e-12
     # vertical displacement budget: |w| dt + 6.5 sqrt(2 Dz dt) < f * min depth a particle can be over
     budget = case["frac"] * float(H.min())
     share = case["share"] if (case["vertdiff"] and case["vadv"]) else (1.0 if case["vadv"] else 0.0)
